@@ -1,0 +1,210 @@
+//go:build verif
+
+package rueidis
+
+import (
+	"strconv"
+	"strings"
+	"sync/atomic"
+	"time"
+)
+
+// Access for the /verif correspondence harness to the client side cache stores
+// (lru.go, cache.go) and to the expiry helpers of message.go. Add-only; compiled
+// only with -tags verif.
+
+const VerifEntryBaseSize = entryBaseSize
+const VerifMessageStructSize = messageStructSize
+
+// VerifNewLRU is newLRU with the given byte budget.
+func VerifNewLRU(max int) CacheStore { return newLRU(CacheStoreOption{CacheSizeEachConn: max}) }
+
+// VerifStrMsg is a blob string message (used as an invalidation key for Delete).
+func VerifStrMsg(s string) RedisMessage { return strmsg(typeBlobString, s) }
+
+// VerifCacheMsg builds a blob string reply "<valID>:xxxx…" whose approximateSize()
+// is exactly approxSize; rawExp != 0 is passed to setExpireAt.
+func VerifCacheMsg(valID uint64, approxSize int, rawExp int64) RedisMessage {
+	p := strconv.FormatUint(valID, 10) + ":"
+	n := approxSize - messageStructSize
+	if n < len(p) {
+		panic("VerifCacheMsg: approxSize too small")
+	}
+	m := strmsg(typeBlobString, p+strings.Repeat("x", n-len(p)))
+	if rawExp != 0 {
+		m.setExpireAt(rawExp)
+	}
+	if m.approximateSize() != approxSize {
+		panic("VerifCacheMsg: size mismatch")
+	}
+	return m
+}
+
+// VerifCacheMsgInfo decodes a message built by VerifCacheMsg. valID is 0 for the
+// zero message and ^0 if the payload does not start with "<decimal>:".
+func VerifCacheMsgInfo(m RedisMessage) (typ byte, valID uint64, exp int64, approx int) {
+	typ, exp, approx = m.typ, m.getExpireAt(), m.approximateSize()
+	if typ == 0 {
+		return
+	}
+	s := m.string()
+	i := strings.IndexByte(s, ':')
+	if i < 0 {
+		return typ, ^uint64(0), exp, approx
+	}
+	v, err := strconv.ParseUint(s[:i], 10, 64)
+	if err != nil {
+		return typ, ^uint64(0), exp, approx
+	}
+	return typ, v, exp, approx
+}
+
+// VerifLRUEntry is one element of lru.list.
+type VerifLRUEntry struct {
+	E       CacheEntry // the *cacheEntry (pointer identity)
+	Key     string     // e.kc.key
+	Cmd     string     // e.cmd
+	Pending bool       // e.val.typ == 0
+	Val     RedisMessage
+	Size    int   // e.size
+	Exp     int64 // e.val.getExpireAt()
+	KcNil   bool  // e.kc == nil
+}
+
+// VerifLRUKey is one entry of lru.store.
+type VerifLRUKey struct {
+	Key   string                // the map key
+	KcKey string                // kc.key (must equal Key)
+	Hits  uint32                // kc.hits
+	Cmds  map[string]CacheEntry // kc.cache: cmd -> ele.Value.(*cacheEntry); nil if the element is nil
+}
+
+// VerifLRUSnap is a consistent copy of the lru taken under its lock.
+type VerifLRUSnap struct {
+	Size     int
+	Max      int
+	ListNil  bool
+	StoreNil bool
+	List     []VerifLRUEntry // front to back
+	Store    []VerifLRUKey   // map order (unsorted)
+}
+
+func VerifLRUSnapshot(s CacheStore) (snap VerifLRUSnap) {
+	c := s.(*lru)
+	c.mu.Lock()
+	defer c.mu.Unlock()
+	snap.Size, snap.Max = c.size, c.max
+	snap.ListNil, snap.StoreNil = c.list == nil, c.store == nil
+	if c.list != nil {
+		for ele := c.list.Front(); ele != nil; ele = ele.Next() {
+			e := ele.Value.(*cacheEntry)
+			le := VerifLRUEntry{E: e, Cmd: e.cmd, Pending: e.val.typ == 0, Val: e.val, Size: e.size, Exp: e.val.getExpireAt()}
+			if e.kc != nil {
+				le.Key = e.kc.key
+			} else {
+				le.KcNil = true
+			}
+			snap.List = append(snap.List, le)
+		}
+	}
+	for key, kc := range c.store {
+		k := VerifLRUKey{Key: key, KcKey: kc.key, Hits: atomic.LoadUint32(&kc.hits), Cmds: make(map[string]CacheEntry, len(kc.cache))}
+		for cmd, ele := range kc.cache {
+			if ele == nil {
+				k.Cmds[cmd] = nil
+			} else {
+				k.Cmds[cmd] = ele.Value.(*cacheEntry)
+			}
+		}
+		snap.Store = append(snap.Store, k)
+	}
+	return
+}
+
+// VerifLRUSetHits overwrites keyCache.hits of key (no-op if the key has no keyCache).
+func VerifLRUSetHits(s CacheStore, key string, hits uint32) {
+	c := s.(*lru)
+	c.mu.Lock()
+	if kc, ok := c.store[key]; ok {
+		atomic.StoreUint32(&kc.hits, hits)
+	}
+	c.mu.Unlock()
+}
+
+func VerifLRUGetTTL(s CacheStore, key, cmd string) time.Duration {
+	return s.(*lru).GetTTL(key, cmd)
+}
+
+// VerifEntryState reports without blocking whether the entry's channel is closed and,
+// if so, what Wait would return.
+func VerifEntryState(e CacheEntry) (closed bool, val RedisMessage, err error) {
+	switch x := e.(type) {
+	case *cacheEntry:
+		select {
+		case <-x.ch:
+			return true, x.val, x.err
+		default:
+		}
+	case *adapterEntry:
+		select {
+		case <-x.ch:
+			return true, x.val, x.err
+		default:
+		}
+	default:
+		panic("VerifEntryState: unknown CacheEntry")
+	}
+	return false, RedisMessage{}, nil
+}
+
+// VerifFlights calls lru.Flights with fresh results/entries containers. hits[i].typ == 0
+// means results[i] was left unset; resErr reports a non-nil error in some results[i].
+func VerifFlights(s CacheStore, now time.Time, multi []CacheableTTL) (hits []RedisMessage, entries map[int]CacheEntry, missed []int, resErr bool) {
+	results := make([]RedisResult, len(multi))
+	entries = map[int]CacheEntry{}
+	missed = s.(*lru).Flights(now, multi, results, entries)
+	hits = make([]RedisMessage, len(multi))
+	for i, r := range results {
+		hits[i] = r.val
+		if r.err != nil {
+			resErr = true
+		}
+	}
+	return
+}
+
+// VerifAdapterSnapshot copies adapter.flights (inner value nil = the marker left by Update/Cancel).
+func VerifAdapterSnapshot(s CacheStore) (flightsNil bool, flights map[string]map[string]CacheEntry) {
+	a := s.(*adapter)
+	a.mu.Lock()
+	defer a.mu.Unlock()
+	if a.flights == nil {
+		return true, nil
+	}
+	flights = make(map[string]map[string]CacheEntry, len(a.flights))
+	for k, m := range a.flights {
+		cp := make(map[string]CacheEntry, len(m))
+		for c, e := range m {
+			cp[c] = e
+		}
+		flights[k] = cp
+	}
+	return false, flights
+}
+
+func VerifAdapterEntryXat(e CacheEntry) int64 { return e.(*adapterEntry).xat }
+
+// VerifPack: setExpireAt(v) on a zero message, the 7 stored bytes and what getExpireAt reads back.
+func VerifPack(v int64) (ttl [7]byte, get int64) {
+	var m RedisMessage
+	m.setExpireAt(v)
+	return m.ttl, m.getExpireAt()
+}
+
+// VerifCacheTTLs: CachePXAT, CachePTTL, CacheTTL of a message with setExpireAt(exp)
+// (the latter two read time.Now() themselves).
+func VerifCacheTTLs(exp int64) (pxat, pttl, ttl int64) {
+	m := strmsg(typeBlobString, "v")
+	m.setExpireAt(exp)
+	return m.CachePXAT(), m.CachePTTL(), m.CacheTTL()
+}
